@@ -311,7 +311,7 @@ func buildFile(s fileSpec) (f *ach.File, err error) {
 
 // ---------------------------------------------------------------- generators
 
-var names = []string{"Payee Co", "Payee Co.", "PAYEE CO", "Other Company", "Name That Is Longer Than 16"}
+var names = []string{"Payee Co", "Payee Co.", "PAYEE CO", "Other Company", "Name That Is Longer Than 16", "Café Co", "Ünïted Çô"}
 var discs = []string{"", "DISC DATA", "disc data 2"}
 var idents = []string{"121042882", "121042883", "1210428820"}
 var descs = []string{"PAYROLL", "PAYROLL2", "VENDOR PAY"}
